@@ -55,6 +55,10 @@ PSEUDO = ["CR", "CRP", "PHOTON", "CRPHOT"]
 ELEMS = ["H", "D", "He", "C", "N", "O"]
 
 
+def pseudo_of(desc) -> list[str]:
+    return list(desc.get("pseudo_elements") or PSEUDO)
+
+
 def total(names):
     comp, q = Counter(), 0
     for n in names:
@@ -103,9 +107,20 @@ def build_network(desc: dict):
     from naunet.reactiontype import ReactionType
     from naunet.thermalprocess import ThermalProcess
     idxs = desc.get("indices") or [-1] * len(desc["reactions"])
+    from naunet.species import Species
+    Species.reset()
+    kw = {}
+    if desc.get("pseudo_elements"):
+        # a user-declared pseudo-reactant list (constructor arguments `elements` / `pseudo_elements`); the reactions below are built
+        # with the same lists installed, as the file readers build them inside the constructor
+        kw["elements"] = list(Species.default_elements)
+        kw["pseudo_elements"] = list(desc["pseudo_elements"])
+        if desc.get("pseudo_prefixes"):     # the spin/isomer prefixes and markers of the default list stay declared: the pool uses them
+            kw["pseudo_elements"] += [x for x in Species.default_pseudoelements if x not in kw["pseudo_elements"]]
+        Species.set_known_elements(list(kw["elements"]))
+        Species.set_known_pseudoelements(list(kw["pseudo_elements"]))
     reacs = [Reaction(list(r), list(p), alpha=1.0e-10 * (i + 1), reaction_type=ReactionType.GAS_TWOBODY, idxfromfile=idxs[i])
              for i, (r, p) in enumerate(desc["reactions"])]
-    kw = {}
     if desc.get("rate_modifier"):
         kw["rate_modifier"] = dict(desc["rate_modifier"])
     hu, cu = desc.get("heating_user", []), desc.get("cooling_user", [])
@@ -185,6 +200,7 @@ def make_trace(tid: int, desc: dict, tag: str, o: dict, extra_species: list[str]
     """abstract net in REAL slots + events for one back-end"""
     macros = o["macros"]
     names = []
+    PSEUDO = pseudo_of(desc)
     for r, p in desc["reactions"]:
         for x in list(r) + list(p):
             if x not in PSEUDO and x not in names:
@@ -380,21 +396,25 @@ def random_cases(rng: random.Random, n: int) -> list[dict]:
                 if x not in pool:
                     pool.append(x)
         reactions = []
+        custom_pseudo = (PSEUDO + rng.choice([["XR"], ["UV", "QQ"], ["XR", "UV"]])) if rng.random() < 0.2 else None   # user-declared extras
         for _ in range(rng.randint(1, 8)):
             br = balanced_reaction(rng, pool)
             if br:
                 r, p = br
-                if rng.random() < 0.2:
-                    r = r + [rng.choice(PSEUDO)]
+                if rng.random() < (0.5 if custom_pseudo else 0.2):
+                    r = r + [rng.choice(custom_pseudo[len(PSEUDO):] if custom_pseudo and rng.random() < 0.7 else PSEUDO)]
                 reactions.append((r, p))
         if not reactions:
             continue
         if rng.random() < 0.3:      # duplicate / permuted copy of a reaction
             r, p = rng.choice(reactions)
             reactions.append((rng.sample(r, len(r)), rng.sample(p, len(p))))
-        used = {x for r, p in reactions for x in r + p if x not in PSEUDO}
+        used = {x for r, p in reactions for x in r + p if x not in (custom_pseudo or PSEUDO)}
         required = [x for x in rng.sample(pool, rng.randint(0, 2)) if x not in used]
         desc = {"reactions": reactions, "required": required, "origin": "random"}
+        if custom_pseudo:
+            desc["pseudo_elements"] = custom_pseudo
+            desc["pseudo_prefixes"] = True
         if rng.random() < 0.4:      # indices as they come from files: 1-based, sparse, shared, some missing
             style = rng.choice(["one", "sparse", "shared"])
             n_r = len(reactions)
